@@ -1,6 +1,7 @@
 package gen
 
 import (
+	"encoding/binary"
 	"fmt"
 	"math"
 	"strconv"
@@ -407,6 +408,9 @@ func GenExifRec(r *core.Rng, o RecOpts) *ExifRec {
 		switch en {
 		case 7: // Canon: an empty directory (count 0, no next directory), the same in both byte orders
 			note = []byte{0, 0, 0, 0, 0, 0}
+			if r.Chance(1, 3) {
+				note = r.Bytes(r.Pick(1, 2, 3, 4)) // a note that lies in the value slot: not an offset to follow
+			}
 		case 30: // Nikon
 			note = r.Bytes(r.Pick(0, 1, 4, 5, 8, 12, 17, 18))
 			if r.Bool() || o.NikonBigNote {
@@ -914,4 +918,28 @@ func AddForeignEmbedded(r *core.Rng, d *Dir, n int) {
 			d.Add(tag, ASCIIRaw(append(r.Bytes(r.Range(0, 3)), 0)))
 		}
 	}
+}
+
+// DropForeignAbove removes the foreign (unknown-id) entries of d that sort behind its last
+// known out-of-line entry, so that the entry a reader adds last to its pending table - the one
+// that is lost when the table is one slot short - is one whose value the expectation names.
+func DropForeignAbove(d *Dir) {
+	res := reservedIDs[d.Kind]
+	last := -1
+	for _, e := range d.Entries {
+		if res[e.Tag] && e.Child == nil && len(e.Val.Bytes(binary.LittleEndian)) > 4 && int(e.Tag) > last {
+			last = int(e.Tag)
+		}
+	}
+	if last < 0 {
+		return
+	}
+	keep := d.Entries[:0]
+	for _, e := range d.Entries {
+		if !res[e.Tag] && int(e.Tag) > last {
+			continue
+		}
+		keep = append(keep, e)
+	}
+	d.Entries = keep
 }
